@@ -48,6 +48,9 @@ Section WsL.
     intro Hne. cbv zeta. unfold gXl, gvJ, gcJ, gS, gmS.
     jc_cases M i; destruct full; cbn; rewrite ?(nth_upd_neq _ _ i j) by auto; repeat split; reflexivity.
   Qed.
+  Lemma jcalc_cS_noncustom full (M : Model) (w : WS) i q qd : is_custom (jkind (getJ M i)) = false ->
+    wcS (jcalc_gen O full M w i q qd) = wcS w.
+  Proof. intro H. unfold jcalc_gen. destruct (jkind (getJ M i)); try discriminate; destruct full; reflexivity. Qed.
   (* the custom-joint S store is only written at the joint's own slot *)
   Lemma jcalc_cS_other full (M : Model) (w : WS) i q qd k : k <> jcust (getJ M i) ->
     gcS (jcalc_gen O full M w i q qd) k = gcS w k.
@@ -102,3 +105,229 @@ Section JointSpec.
       cbn in K. subst XJ'. destruct full; cbn; rewrite nth_upd_eq by exact Hi; reflexivity.
   Qed.
 End JointSpec.
+
+(* ---- the workspace invariant: entries no routine rewrites keep their construction values ---- *)
+Section WsInvariant.
+  Context {T : Type} (O : Ops T) {FL : FieldLaws O}.
+  Add Field FlF2 : (@fl_field T O FL).
+  Local Notation Model := (@Model T). Local Notation WS := (@WS T).
+  Local Notation t0 := (o0 O). Local Notation t1 := (o1 O).
+
+  Definition svz := svzero O.
+  (* a 6x3 block whose unassigned entries (per joint kind) are zero *)
+  Definition mS_clean (k : JKind) (m : M63 (T:=T)) : Prop :=
+    exists a b c d e f : T,
+      match k with
+      | JSpherical => m = [mkSV a t0 t0 t0 t0 t0; mkSV t0 b t0 t0 t0 t0; mkSV t0 t0 c t0 t0 t0]
+      | JEulerZYX => m = [mkSV a b c t0 t0 t0; mkSV t0 d e t0 t0 t0; mkSV f t0 t0 t0 t0 t0]
+      | JEulerXYZ => m = [mkSV a b c t0 t0 t0; mkSV d e t0 t0 t0 t0; mkSV t0 t0 f t0 t0 t0]
+      | JEulerYXZ => m = [mkSV a b c t0 t0 t0; mkSV d e t0 t0 t0 t0; mkSV t0 t0 f t0 t0 t0]
+      | JEulerZXY => m = [mkSV a b c t0 t0 t0; mkSV d t0 e t0 t0 t0; mkSV t0 f t0 t0 t0 t0]
+      | JTransXYZ => m = [mkSV t0 t0 t0 a t0 t0; mkSV t0 t0 t0 t0 b t0; mkSV t0 t0 t0 t0 t0 c]
+      | _ => True
+      end.
+
+  (* per-joint part of the invariant *)
+  Definition WsInvJ (M : Model) (w : WS) (i : nat) : Prop :=
+    let J := getJ M i in
+    match jkind J with
+    | JRevX => gS O w i = ex O /\ (exists x, gvJ O w i = mkSV x t0 t0 t0 t0 t0) /\ gcJ O w i = svz
+    | JRevY => gS O w i = ey O /\ (exists x, gvJ O w i = mkSV t0 x t0 t0 t0 t0) /\ gcJ O w i = svz
+    | JRevZ => gS O w i = ez O /\ (exists x, gvJ O w i = mkSV t0 t0 x t0 t0 t0) /\ gcJ O w i = svz
+    | JRevolute | JPrismatic => gS O w i = jaxis O M i /\ gcJ O w i = svz
+    | JSpherical => mS_clean JSpherical (gmS O w i) /\ gcJ O w i = svz
+    | JEulerZYX | JEulerXYZ | JEulerYXZ | JEulerZXY | JTransXYZ => mS_clean (jkind J) (gmS O w i)
+    | _ => True
+    end.
+  Definition WsInv (M : Model) (w : WS) : Prop := forall i, 0 < i < nbodies M -> WsInvJ M w i.
+
+  (* motion subspace, joint velocity and bias acceleration as functions of model and state *)
+  Definition SF (M : Model) (q : list T) (i : nat) : list (SV T) :=
+    let J := getJ M i in let qi := jq J in
+    let q0 := vget t0 q qi in let q1 := vget t0 q (S qi) in let q2 := vget t0 q (S (S qi)) in
+    match jkind J with
+    | JRevX => [ex O] | JRevY => [ey O] | JRevZ => [ez O]
+    | JRevolute | JPrismatic => [jaxis O M i]
+    | JHelical => [svof (svang (jaxis O M i)) (m3v O (stE (jcalc_XJ O M i q)) (svlin (jaxis O M i)))]
+    | JSpherical => [ex O; ey O; ez O]
+    | JEulerZYX | JEulerXYZ | JEulerYXZ | JEulerZXY =>
+        m63_sets O (m63zero O) (snd (fst (euler_lit O (jkind J) (osin O q0) (ocos O q0) (osin O q1) (ocos O q1)
+                                             (osin O q2) (ocos O q2) t0 t0 t0)))
+    | JTransXYZ => [tx O; ty O; tz O]
+    | JCustom c => snd (fst (custom_lit O c (vslice t0 q qi (cdof c)) []))
+    | JRoot => []
+    end.
+  Definition qd_seg (M : Model) (i : nat) (qd : list T) : list T := vslice t0 qd (jq (getJ M i)) (jdof (getJ M i)).
+  Definition vJF (M : Model) (q qd : list T) (i : nat) : SV T := cols_mulv O (SF M q i) (qd_seg M i qd).
+End WsInvariant.
+
+Section JcalcVals.
+  Context {T : Type} (O : Ops T) {FL : FieldLaws O}.
+  Add Field FlF3 : (@fl_field T O FL).
+  Local Notation Model := (@Model T). Local Notation WS := (@WS T).
+  Local Notation t0 := (o0 O). Local Notation t1 := (o1 O).
+
+  (* DoF count and custom slot agree with the joint kind (established by construction) *)
+  Definition kind_dof (M : Model) (w : WS) (i : nat) : Prop :=
+    let J := getJ M i in
+    match jkind J with
+    | JRevX | JRevY | JRevZ | JRevolute | JPrismatic | JHelical => jdof J = 1
+    | JSpherical | JEulerZYX | JEulerXYZ | JEulerYXZ | JEulerZXY | JTransXYZ => jdof J = 3
+    | JCustom c => jdof J = cdof c /\ jcust J < length (wcS w)
+    | JRoot => False
+    end.
+
+  Ltac wsimp := cbn [wXl wXb wv wa wc wvJ wcJ wS wf wpA wU wmS wmU wmDinv wmu wIc wIA wd wu wcS wcU wcDinv wcu
+                     w_Xl w_Xb w_v w_a w_c w_vJ w_cJ w_S w_f w_pA w_U w_mS w_mU w_mDinv w_mu w_Ic w_IA w_d w_u
+                     w_cS w_cU w_cDinv w_cu gXl gvJ gcJ gS gmS gcS] in *.
+  Ltac upd_eq := repeat (rewrite nth_upd_eq by (rewrite ?upd_length; lia)).
+
+  Lemma custom_S_indep c q qd qd' : snd (fst (custom_lit O c q qd)) = snd (fst (custom_lit O c q qd')).
+  Proof. destruct c; reflexivity. Qed.
+  Definition is_euler (k : JKind) : bool :=
+    match k with JEulerZYX | JEulerXYZ | JEulerYXZ | JEulerZXY => true | _ => false end.
+  Lemma euler_Sl_indep k s0 c0 s1 c1 s2 c2 a b c a' b' c' :
+    snd (fst (euler_lit O k s0 c0 s1 c1 s2 c2 a b c)) = snd (fst (euler_lit O k s0 c0 s1 c1 s2 c2 a' b' c')).
+  Proof. destruct k; reflexivity. Qed.
+  Lemma euler_sets_clean k m s0 c0 s1 c1 s2 c2 a b c : is_euler k = true -> mS_clean O k m ->
+    m63_sets O m (snd (fst (euler_lit O k s0 c0 s1 c1 s2 c2 a b c))) =
+    m63_sets O (m63zero O) (snd (fst (euler_lit O k s0 c0 s1 c1 s2 c2 a b c))).
+  Proof.
+    intros Hk (x1 & x2 & x3 & x4 & x5 & x6 & Hm). destruct k; try discriminate; subst m; reflexivity.
+  Qed.
+  Lemma euler_sets_is_clean k s0 c0 s1 c1 s2 c2 a b c : is_euler k = true ->
+    mS_clean O k (m63_sets O (m63zero O) (snd (fst (euler_lit O k s0 c0 s1 c1 s2 c2 a b c)))).
+  Proof. intros Hk. destruct k; try discriminate; cbn; do 6 eexists; reflexivity. Qed.
+
+  (* the three-dof joints with constant S *)
+  Lemma sph_sets_clean m : mS_clean O JSpherical m -> m63_sets O m [(0,0,t1); (1,1,t1); (2,2,t1)] = [ex O; ey O; ez O].
+  Proof. intros (a & b & c & _ & _ & _ & ->). reflexivity. Qed.
+  Lemma txyz_sets_clean m : mS_clean O JTransXYZ m -> m63_sets O m [(3,0,t1); (4,1,t1); (5,2,t1)] = [tx O; ty O; tz O].
+  Proof. intros (a & b & c & _ & _ & _ & ->). reflexivity. Qed.
+
+  Lemma cols1 (s : SV T) x : svscale O x s = cols_mulv O [s] [x].
+  Proof. destruct s; cbn; ext_rec; cbv_sc; ring. Qed.
+
+  Theorem jcalc_full_vals (M : Model) (w : WS) i q qd n :
+    ws_len w n -> i < n -> WsInvJ O M w i -> kind_dof M w i ->
+    let w' := jcalc O M w i q qd in
+    jS O M w' i = SF O M q i /\ gvJ O w' i = vJF O M q qd i /\ WsInvJ O M w' i.
+  Proof.
+    intros Hlen Hi Hinv Hk. cbv zeta.
+    unfold ws_len in Hlen. decompose [and] Hlen. clear Hlen.
+    unfold vJF, qd_seg, jS, WsInvJ, kind_dof, jcalc, jcalc_gen in *. unfold SF.
+    unfold gS, gvJ, gcJ, gmS, gcS, gXl in *.
+    destruct (jkind (getJ M i)) as [| | | | | | | | | | | | |c] eqn:Ek; [contradiction| | | | | | | | | | | | |];
+      cbv zeta; wsimp.
+    - (* revolute *) destruct Hinv as [HS Hc]. rewrite Hk. cbn [Nat.eqb vslice]. upd_eq. wsimp. rewrite HS.
+      repeat split; auto. apply cols1.
+    - (* prismatic *) destruct Hinv as [HS Hc]. rewrite Hk. cbn [Nat.eqb vslice]. upd_eq. wsimp. rewrite HS.
+      repeat split; auto. apply cols1.
+    - (* revx *) destruct Hinv as (HS & [x Hv] & Hc). rewrite Hk. cbn [Nat.eqb vslice]. upd_eq. rewrite Hv, HS.
+      repeat split; auto; try (eexists; reflexivity). cbn. ext_rec; cbv_sc; ring.
+    - destruct Hinv as (HS & [x Hv] & Hc). rewrite Hk. cbn [Nat.eqb vslice]. upd_eq. rewrite Hv, HS.
+      repeat split; auto; try (eexists; reflexivity). cbn. ext_rec; cbv_sc; ring.
+    - destruct Hinv as (HS & [x Hv] & Hc). rewrite Hk. cbn [Nat.eqb vslice]. upd_eq. rewrite Hv, HS.
+      repeat split; auto; try (eexists; reflexivity). cbn. ext_rec; cbv_sc; ring.
+    - (* spherical *) destruct Hinv as [Hm Hc]. rewrite Hk. cbn [Nat.eqb vslice]. upd_eq.
+      rewrite (sph_sets_clean _ Hm). repeat split; auto.
+      + cbn. ext_rec; cbv_sc; ring.
+      + exists t1, t1, t1, t0, t0, t0. reflexivity.
+    - (* euler zyx *) rewrite Hk. cbn [Nat.eqb vslice nth]. upd_eq.
+      rewrite (euler_sets_clean JEulerZYX _ _ _ _ _ _ _ _ _ _ eq_refl Hinv).
+      rewrite (euler_Sl_indep JEulerZYX _ _ _ _ _ _ _ _ _ t0 t0 t0).
+      repeat split; auto. apply euler_sets_is_clean. reflexivity.
+    - rewrite Hk. cbn [Nat.eqb vslice nth]. upd_eq.
+      rewrite (euler_sets_clean JEulerXYZ _ _ _ _ _ _ _ _ _ _ eq_refl Hinv).
+      rewrite (euler_Sl_indep JEulerXYZ _ _ _ _ _ _ _ _ _ t0 t0 t0).
+      repeat split; auto. apply euler_sets_is_clean. reflexivity.
+    - rewrite Hk. cbn [Nat.eqb vslice nth]. upd_eq.
+      rewrite (euler_sets_clean JEulerYXZ _ _ _ _ _ _ _ _ _ _ eq_refl Hinv).
+      rewrite (euler_Sl_indep JEulerYXZ _ _ _ _ _ _ _ _ _ t0 t0 t0).
+      repeat split; auto. apply euler_sets_is_clean. reflexivity.
+    - rewrite Hk. cbn [Nat.eqb vslice nth]. upd_eq.
+      rewrite (euler_sets_clean JEulerZXY _ _ _ _ _ _ _ _ _ _ eq_refl Hinv).
+      rewrite (euler_Sl_indep JEulerZXY _ _ _ _ _ _ _ _ _ t0 t0 t0).
+      repeat split; auto. apply euler_sets_is_clean. reflexivity.
+    - (* translation xyz *) rewrite Hk. cbn [Nat.eqb vslice nth]. upd_eq.
+      rewrite (txyz_sets_clean _ Hinv). repeat split; auto.
+      exists t1, t1, t1, t0, t0, t0. reflexivity.
+    - (* helical *) rewrite Hk. cbn [Nat.eqb vslice]. upd_eq. wsimp. upd_eq. split; [reflexivity|split; [apply cols1|exact I]].
+    - (* custom *) destruct Hk as [Hd Hc]. rewrite Hd. upd_eq.
+      rewrite (custom_S_indep c _ (vslice t0 qd (jq (getJ M i)) (cdof c)) []).
+      split; [reflexivity|split; [reflexivity|exact I]].
+  Qed.
+End JcalcVals.
+
+Section InvFrame.
+  Context {T : Type} (O : Ops T) {FL : FieldLaws O}.
+  Local Notation Model := (@Model T). Local Notation WS := (@WS T).
+
+  Lemma WsInvJ_ext (M : Model) (w w' : WS) j :
+    gS O w' j = gS O w j -> gvJ O w' j = gvJ O w j -> gcJ O w' j = gcJ O w j -> gmS O w' j = gmS O w j ->
+    WsInvJ O M w j -> WsInvJ O M w' j.
+  Proof. unfold WsInvJ. intros -> -> -> ->. auto. Qed.
+
+  Lemma jcalc_inv_other full (M : Model) (w : WS) i q qd j : j <> i ->
+    WsInvJ O M w j -> WsInvJ O M (jcalc_gen O full M w i q qd) j.
+  Proof.
+    intros Hne H. destruct (jcalc_other O full M w i q qd j Hne) as (_ & A & B & C & D).
+    apply (WsInvJ_ext M w); auto.
+  Qed.
+  Lemma kind_dof_ext (M : Model) (w w' : WS) j : length (wcS w') = length (wcS w) -> kind_dof M w j -> kind_dof M w' j.
+  Proof. unfold kind_dof. intros ->. auto. Qed.
+
+  (* jcalc keeps the whole invariant *)
+  Theorem jcalc_full_inv (M : Model) (w : WS) i q qd n :
+    ws_len w n -> i < n -> (forall j, 0 < j < n -> kind_dof M w j) ->
+    (forall j, 0 < j < n -> WsInvJ O M w j) -> 0 < i ->
+    forall j, 0 < j < n -> WsInvJ O M (jcalc O M w i q qd) j /\ kind_dof M (jcalc O M w i q qd) j.
+  Proof.
+    intros Hlen Hi Hk Hinv Hi0 j Hj. split.
+    - destruct (Nat.eq_dec j i) as [->|Hne].
+      + apply (jcalc_full_vals O M w i q qd n); auto.
+      + apply jcalc_inv_other; auto.
+    - apply (kind_dof_ext M w); [apply jcalc_cS_len | apply Hk; exact Hj].
+  Qed.
+End InvFrame.
+
+(* ---- the joint bias acceleration c_J written (or left at its construction value) by jcalc ---- *)
+Section CJ.
+  Context {T : Type} (O : Ops T) {FL : FieldLaws O}.
+  Add Field FlF4 : (@fl_field T O FL).
+  Local Notation Model := (@Model T). Local Notation WS := (@WS T).
+  Local Notation t0 := (o0 O). Local Notation t1 := (o1 O).
+
+  Definition cJF (M : Model) (q qd : list T) (i : nat) : SV T :=
+    let J := getJ M i in let qi := jq J in
+    let q0 := vget t0 q qi in let q1 := vget t0 q (S qi) in let q2 := vget t0 q (S (S qi)) in
+    match jkind J with
+    | JHelical =>
+        let Jqd := vget t0 qd qi in
+        let a := jaxis O M i in
+        let trans := m3v O (stE (jcalc_XJ O M i q)) (svlin a) in
+        svof (v3zero O) (v3scale O (omul O (oopp O Jqd) Jqd) (v3cross O (svang a) trans))
+    | JEulerZYX | JEulerXYZ | JEulerYXZ | JEulerZXY =>
+        svof (snd (euler_lit O (jkind J) (osin O q0) (ocos O q0) (osin O q1) (ocos O q1) (osin O q2) (ocos O q2)
+                     (vget t0 qd qi) (vget t0 qd (S qi)) (vget t0 qd (S (S qi))))) (v3zero O)
+    | JCustom c => snd (custom_lit O c (vslice t0 q qi (cdof c)) (vslice t0 qd qi (cdof c)))
+    | _ => svzero O
+    end.
+
+  Ltac wsimp := cbn [wXl wXb wv wa wc wvJ wcJ wS wf wpA wU wmS wmU wmDinv wmu wIc wIA wd wu wcS wcU wcDinv wcu
+                     w_Xl w_Xb w_v w_a w_c w_vJ w_cJ w_S w_f w_pA w_U w_mS w_mU w_mDinv w_mu w_Ic w_IA w_d w_u
+                     w_cS w_cU w_cDinv w_cu] in *.
+  Ltac upd_eq := repeat (rewrite nth_upd_eq by (rewrite ?upd_length; lia)).
+
+  Theorem jcalc_full_cJ (M : Model) (w : WS) i q qd n :
+    ws_len w n -> i < n -> jkind (getJ M i) <> JRoot -> WsInvJ O M w i ->
+    gcJ O (jcalc O M w i q qd) i = cJF M q qd i.
+  Proof.
+    intros Hlen Hi Hr Hinv.
+    unfold ws_len in Hlen. decompose [and] Hlen. clear Hlen.
+    unfold cJF, WsInvJ, jcalc, jcalc_gen in *. unfold gS, gvJ, gcJ, gmS, gcS, gXl in *.
+    destruct (jkind (getJ M i)) as [| | | | | | | | | | | | |c] eqn:Ek; [congruence| | | | | | | | | | | | |];
+      cbv zeta; wsimp; upd_eq; wsimp; upd_eq;
+      try reflexivity; try (destruct Hinv as (_ & _ & Hc); exact Hc); try (destruct Hinv as (_ & Hc); exact Hc).
+  Qed.
+End CJ.
